@@ -109,6 +109,14 @@ impl Epoch {
     /// Invalid number of hours, minutes, and seconds will overflow into their higher unit.
     /// Warning: this will set the subdivisions of seconds to zero.
     pub fn with_hms_strict(&self, hours: u64, minutes: u64, seconds: u64) -> Self {
+        // The time is set on the calendar day that contains this epoch in its own time scale (ET and TDB count
+        // from noon, the GNSS time scales from their own reference dates).
+        let (year, month, day, _, _, _, _) = Self::compute_gregorian(self.duration, self.time_scale);
+        if let Ok(midnight) =
+            Self::maybe_from_gregorian(year, month, day, 0, 0, 0, 0, self.time_scale)
+        {
+            return midnight + Duration::compose(0, 0, hours, minutes, seconds, 0, 0, 0);
+        }
         let (sign, days, h, m, s, ms, us, ns) = self.duration.decompose();
         if sign < 0 {
             // Before the reference epoch the duration is negative: the day that contains this epoch starts at the
